@@ -154,6 +154,12 @@ def op_load(w, ins):
     fault = ins.get('fault')
     if fault and fault['kind'] in ('stale', 'shelf') and fmt != 'json':
         fault = None
+    if ins.get('dyn') is not None and w.cfg.get('dyn'):
+        # the receiving manager reorders dynamically, and its trigger is due
+        # after `dyn` more nodes: inside the load, if the load creates them
+        g.api.configure(reordering=True)
+        if ops.arm_manager(w, g, ins['dyn']) != 'skip':
+            w.stats['load_armed'] += 1
     done = _arm(w, fault)
     if fmt == 'pickle':
         if ins.get('positional'):
@@ -241,6 +247,8 @@ def op_manager_roundtrip(w, ins):
     # otherwise it does a few operations here and is released.
     if m == 0 and len(w.mgrs) > 1 and not w.slots_of(1):
         w.finalize()
+        for key in [k for k in w.copy_caches if 1 in k]:
+            del w.copy_caches[key]
         tmp.idx = 1
         tmp.term_base = g.term_base
         w.mgrs[1] = tmp
@@ -442,6 +450,7 @@ def gen_load(w, r, cfg):
     return dict(op='load', file=_ri(r), target=r.choice([0, 0, 1, 1, 2]),
                 levels=int(r.random() < 0.6), load_order=int(r.random() < 0.25),
                 positional=r.randrange(2), direct=r.randrange(2),
+                dyn=(r.choice([0, 1, 2, 3, 5, 8, 13]) if cfg.get('dyn') and r.random() < 0.5 else None),
                 fault=_gen_fault(r, cfg, ['open', 'read', 'read', 'stale', 'shelf']))
 
 
